@@ -15,7 +15,8 @@ def events(ctx):
         cfg = rnd_cfg(rng)
         cfg["segctrl"] = rng.randrange(2)
         over = rng.random() < 0.05
-        yield record("pdu.rt", {"kind": "filedata", "cfg": cfg, "p": rnd_params(rng, "filedata", cfg["large"], over), "sfx": []})
+        yield record("pdu.rt", {"kind": "filedata", "cfg": cfg, "p": rnd_params(rng, "filedata", cfg["large"], over),
+                                "sfx": [] if rng.random() < 0.7 else rnd_bytes(rng, rng.randrange(1, 6))})
     for n in ctx.q([4096], [4096, 30000, 65535 - 8 - 2 - 64, 65535 - 4, 65535 - 3]):
         for crc in (0, 1):
             cfg = rnd_cfg(rng, crc=crc, large=0)
